@@ -74,7 +74,7 @@ def main : IO Unit := do
         let leaving := ls.reverse.takeWhile fun l => match l.2.1 with | some k => decide (d < k) | none => false
         let wantEffs := leaving.map fun l => Rs.Eff.mk "self.emit_byte" [Rs.Arg.n (if l.2.2 then 56 else 4)]
         let wantLocals := if pop then ls.take (ls.length - leaving.length) else ls
-        let ok : Bool := match Fns.emit_scope_end pop d ls [] with
+        let ok : Bool := match Fns.emit_scope_end pop d ls with
           | .ok ((), rest, effs) => rest == wantLocals && effs == wantEffs
           | .panic => false
         if !ok then
@@ -82,4 +82,39 @@ def main : IO Unit := do
           if shown3 < 6 then
             shown3 := shown3 + 1
             IO.println s!"DISAGREE Parser::emit_scope_end locals={reprStr ls} scope_depth={d} pop_locals={pop} expected_instructions={reprStr (wantEffs.map (·.args))}"
+  -- declare_variable: one "already declared" report per same-named local of the current scope, then the new uninitialised local
+  let mut shown4 := 0
+  let declChoices : List RLocal := [("a", some 1, false), ("a", some 2, false), ("b", some 2, true), ("a", none, false), ("b", some 1, false)]
+  let rec dlists : Nat → List (List RLocal)
+    | 0 => [[]]
+    | k + 1 => (dlists k) ++ ((dlists k).filter (·.length == k)).flatMap fun l => declChoices.map fun c => l ++ [c]
+  for ls in dlists 4 do
+    for d in [(0 : Int), 1, 2, 3] do
+      for name in ["a", "b", "z"] do
+        tried := tried + 1
+        let inScope := fun (l : RLocal) => match l.2.1 with | some v => !decide (v < d) | none => true
+        let k := ((ls.reverse.takeWhile inScope).filter fun l => l.1 == name).length
+        let errA := Rs.Eff.mk "self.error" [Rs.Arg.s "Variable with this name already declared in this scope."]
+        let want : Unit × List RLocal × List Rs.Eff := if d == 0 then ((), ls, []) else ((), ls ++ [(name, none, false)], List.replicate k errA)
+        let ok : Bool := match Fns.declare_variable ls d name with
+          | .ok r => r.2.1 == want.2.1 && r.2.2 == want.2.2
+          | .panic => false
+        if !ok then
+          n := n + 1
+          if shown4 < 6 then
+            shown4 := shown4 + 1
+            IO.println s!"DISAGREE Parser::declare_variable locals={reprStr ls} scope_depth={d} name={name} expected_reports={k}"
+  for ls in dlists 2 do
+    for name in ["a", "q"] do
+      tried := tried + 1
+      let ok : Bool := match Fns.compiler_add_local ls name with
+        | .ok (true, r) => r == ls ++ [(name, none, false)]
+        | _ => false
+      let full := List.replicate 256 (("x", some 1, false) : RLocal)
+      let ok2 : Bool := match Fns.compiler_add_local full name with
+        | .ok (false, r) => r == full
+        | _ => false
+      if !(ok && ok2) then
+        n := n + 1
+        IO.println s!"DISAGREE Compiler::add_local locals_len={ls.length} name={name}"
   IO.println s!"SEARCHED resolver ties cases={tried} disagreements={n}"
